@@ -10,7 +10,7 @@
 use aelys_bytecode::UpvalueDescriptor;
 
 pub(crate) const C04_WORDS: usize = 4;
-pub(crate) const C04_HEADROOM: u64 = 64;
+pub(crate) const C04_HEADROOM: u64 = 40;
 
 /// heap pool selector (concrete per harness)
 pub(crate) const POOL_SCALAR: u8 = 0; // F, string
@@ -25,11 +25,14 @@ pub(crate) struct C04Pre {
     pub base: usize,
 }
 
-fn any_words() -> Vec<u32> {
+fn any_words<W: Fn(u32) -> bool>(word_ok: &W) -> Vec<u32> {
     let mut w = Vec::with_capacity(C04_WORDS);
     let mut i = 0;
     while i < C04_WORDS {
-        w.push(kani::any());
+        let x: u32 = kani::any();
+        // stated bound for opcodes whose 16-bit immediate sizes a host container (global index, call-site slot)
+        kani::assume(word_ok(x));
+        w.push(x);
         i += 1;
     }
     w
@@ -47,16 +50,17 @@ fn any_valid_const(heap_objs: usize, nested: usize) -> Value {
     v
 }
 
-pub(crate) fn c04_state(pool: u8) -> (VM, C04Pre) {
+pub(crate) fn c04_state<W: Fn(u32) -> bool>(pool: u8, word_ok: W) -> (VM, C04Pre) {
     let mut vm = verif_vm();
     // object 0: the running function F: 4 symbolic words, 2 symbolic (valid) constants
     let nested = if pool == POOL_CLOS { 1 } else { 0 };
     let preobjs = 1; // constants may point at F itself (object 0) only: later objects do not exist yet when F is built
     let consts = vec![any_valid_const(preobjs, nested), any_valid_const(preobjs, nested)];
-    let mut f = mk_function(any_words(), consts, 0, kani::any());
+    let mut f = mk_function(any_words(&word_ok), consts, kani::any(), kani::any());
+    kani::assume(f.num_registers <= 3 && f.arity <= 1); // bound: a larger window only lengthens registers.resize
     if pool == POOL_CLOS {
-        let mut n = mk_function(vec![kani::any()], vec![Value::from_raw(kani::any())], kani::any(), kani::any());
-        kani::assume(!n.constants[0].is_ptr() && n.constants[0].as_nested_fn_marker().is_none());
+        // the nested function is concrete ([Return0], one int constant): instantiating it clones and re-verifies it
+        let mut n = mk_function(vec![23u32 << 24], vec![Value::int(7)], 1, 2);
         n.upvalue_descriptors = vec![UpvalueDescriptor { is_local: kani::any(), index: kani::any() }];
         f.nested_functions = vec![n];
         f.upvalue_descriptors = vec![UpvalueDescriptor { is_local: true, index: 0 }];
@@ -108,10 +112,22 @@ pub(crate) fn c04_state(pool: u8) -> (VM, C04Pre) {
     let base: usize = kani::any();
     kani::assume(base <= 2);
     push_function_frame(&mut vm, fr, base, kani::any());
+    if pool == POOL_CALL {
+        // the running frame has one (closed) upvalue holding an arbitrary value: callee of CallUpval/TailCallUpval
+        let up = vm.heap.alloc(GcObject::new(ObjectKind::Upvalue(AelysUpvalue { location: UpvalueLocation::Closed(Value::from_raw(kani::any())) })));
+        vm.current_upvalues = vec![up];
+        let n = vm.frames.len() - 1;
+        vm.frames[n].upvalues_ptr = vm.current_upvalues.as_ptr();
+        vm.frames[n].upvalues_len = 1;
+    }
     if pool == POOL_CLOS {
         // the frame runs as a closure with one upvalue (open or closed)
         let loc = if kani::any() {
-            UpvalueLocation::Open { frame_base: kani::any(), register: kani::any() }
+            {
+                let fb: usize = kani::any();
+                kani::assume(fb <= 2); // open upvalues are created by capture_upvalue(base, reg) with base a frame base
+                UpvalueLocation::Open { frame_base: fb, register: kani::any() }
+            }
         } else {
             UpvalueLocation::Closed(Value::from_raw(kani::any()))
         };
@@ -163,7 +179,7 @@ pub(crate) fn c04_locals_match_top(vm: &VM, out: &StepOut) -> bool {
 }
 
 macro_rules! c04_step {
-    ($name:ident, $step:ident, $op:expr, $pool:expr) => {
+    ($name:ident, $step:ident, $op:expr, $pool:expr, $wok:expr) => {
         #[kani::proof]
         #[kani::stub(std::hash::RandomState::new, stub_random_state)]
         #[kani::stub(std::fmt::format, stub_format)]
@@ -175,7 +191,7 @@ macro_rules! c04_step {
         #[kani::stub(crate::vm::VM::sync_current_function_globals, stub_sync_globals)]
         #[kani::stub(crate::vm::VM::print_value, stub_print_value)]
         fn $name() {
-            let (mut vm, _pre) = c04_state($pool);
+            let (mut vm, _pre) = c04_state($pool, $wok);
             let mut out = None;
             let r = vm.$step::<{ $op }>(&mut out);
             c04_post(&vm, &out, &r);
